@@ -4,6 +4,7 @@
    dle on decimals (Go's Cmp is only *compatible* with it: C02_cmp_compatible). *)
 From DS Require Import Base Decimal StreamValue Sort Aggregators.
 From DS Require Import RankMedian DecimalProofs AggregatorProofs.
+From DS Require Outcome StepTheorems.
 
 (* numeric order is a total preorder; Go's Cmp agrees with it on numerically different values *)
 Theorem C02_numeric_order : (forall a, dle a a) /\ (forall a b c, dle a b -> dle b c -> dle a c) /\ (forall a b, dle a b \/ dle b a).
@@ -61,6 +62,16 @@ Theorem C02_median_ts_in_honest_range : forall (tts : list (Z * bool)) t,
   exists lo hi, In (lo, true) tts /\ In (hi, true) tts /\ lo <= t <= hi.
 Proof. exact median_ts_in_honest_range. Qed.
 Print Assumptions C02_median_ts_in_honest_range.
+
+(* ... and at the level of Plugin.Outcome: the timestamps of the observations the outcome function accepts
+   (accepted_ts: decodable, not discarded for a forged attestation), tagged honest/faulty *)
+Theorem C02_outcome_timestamp_in_honest_range : forall h cf seq prev (taos : list (option Outcome.observation * bool)) next,
+  1 < seq -> Outcome.outcome_step h cf seq prev (map fst taos) = Ok next ->
+  (faulty_count (StepTheorems.accepted_ts taos) < honest_count (StepTheorems.accepted_ts taos))%nat ->
+  exists lo hi, In (lo, true) (StepTheorems.accepted_ts taos) /\ In (hi, true) (StepTheorems.accepted_ts taos) /\
+                lo <= Outcome.o_ts next <= hi.
+Proof. exact StepTheorems.outcome_timestamp_in_honest_range. Qed.
+Print Assumptions C02_outcome_timestamp_in_honest_range.
 
 (* non-vacuity: f = 1, honest {10.0, 1e1, 12}, faulty {Quote(-5, 10^30, 10^31)} *)
 Definition C02_nv_vals : list (option sval * bool) :=
